@@ -22,7 +22,12 @@ def generate(seed, tier="quick"):
     rng = G.rng_of("C01", seed)
     big = tier == "thorough" and rng.random() < 0.03
     n_choices = [128, 256, 600] if big else None
-    world = S.gen_world(rng, regimes=ACCEPTED, n_choices=n_choices)
+    # a share of runs in flows that are exactly stagnant over whole update intervals (L == 0
+    # everywhere, or zero outside a time gate): "any finite velocity-gradient history" includes
+    # a paused flow, and an accepted update over it still appends exactly one snapshot
+    stagnant = rng.random() < 0.12
+    world = S.gen_world(rng, regimes=ACCEPTED, n_choices=n_choices,
+                        flow_families=["zero", "gated", "gated", "const"] if stagnant else None)
     # regime fields switching in time (accepted regimes only)
     if rng.random() < 0.2:
         r0, r1 = rng.choice(ACCEPTED), rng.choice(ACCEPTED)
